@@ -37,7 +37,7 @@ _VFN = {}
 def value_fn_of(spec):
     if spec.get('wide'):
         return enc_wide
-    key = (spec.get('dtype') == 'int64', bool(spec.get('neg')))
+    key = (spec.get('dtype') == 'int64' or bool(spec.get('enc2')), bool(spec.get('neg')))
     if key not in _VFN:
         base = enc2 if key[0] else enc
         _VFN[key] = _negating(base) if key[1] else base
